@@ -127,7 +127,7 @@ PROPS.update({
         "Every non-empty emitted data string must parse (ParseData) to what the harness decoder reads and to what the model says was encoded; every continued operation must be accepted by the same-named function on the destination shard; ParseESDTTransfers on the executing input must report exactly the receiver, items and attached call the ledger moves.",
         HIST + "Non-trivial = an accepted transfer with >= 1 of {attached call, >= 2 tokens, NFT payload, leading-zero number, delivery}; distinct by (function, side, shape labels, #args).", 4000, 50000),
     "C11": engine_prop("TestC11", "stateful PBT (rapid) weighted to G2/G3 hostile inputs: result-shape, panic and allocation-ceiling oracles",
-        "All 23 functions are called with 0..12 adversarial arguments (wrap residues of 3n+c, aliasing identifiers, 8/9-byte integers, 2^20..2^24 counts, 31/32/33-byte addresses) on states reached by valid prefixes, plus every emitted message on its destination shard: (Ok output, nil error) xor (nil output, error), no panic, < 8 MiB allocated per call.",
+        "All 23 functions are called with 0..12 adversarial arguments (wrap residues of 3n+c, aliasing identifiers, 8/9-byte integers, 2^20..2^24 counts, 31/32/33-byte addresses) on states reached by valid prefixes, plus every emitted message on its destination shard: (Ok output, nil error) xor (nil output, error), no panic, allocation bounded by what the REAL size of the input and of the stored values explains (8 MiB for any ordinary call), and every call returns (a deadlock, established from the goroutine dump, is a violation).",
         HIST + "Non-trivial = a G2/G3 call that gets past argument-count validation (its error is not an invalid-arguments / nil-input one) or carries a hostile constant; distinct by (function, layer, shape labels, error class, #args).", 6000, 80000),
     "C15": engine_prop("TestC15", "stateful PBT (rapid) long random walks with a full well-formedness scan of the executing shard after every step",
         "Long walks (100-300 operations): after every step every ELROND key must have one of the three layouts, every value must decode, balances positive (zero only with a frozen flag), fungible entries without and NFT entries with matching metadata nonce, no duplicate roles, create-role counter >= highest nonce issued.",
